@@ -815,6 +815,8 @@ class Interp:
         spec.check(self, fr, base + "/inv-entry", kind="loop-entry")
         spec.havoc(self, fr, st)
         spec.assume(self, fr)
+        if getattr(spec, "head", None):
+            spec.head(ctx, fr)         # sidecar hook: capture ghost values at the head of the arbitrary iteration
         c = test()
         if ctx.branch(c, "loop@%d" % st.lineno):
             if pre:
@@ -825,6 +827,8 @@ class Interp:
                 pass
             except BreakSig:
                 return
+            if getattr(spec, "body_ensures", None):
+                spec.check_body(self, fr, base + "/body-ensures")
             spec.check(self, fr, base + "/inv-preserved", kind="loop-preserved")
             raise PathEnd()
         else:
@@ -1412,6 +1416,8 @@ def _has_continue(body):
 
 def _pure(e):
     for n in ast.walk(e):
+        if isinstance(n, ast.Call) and isinstance(n.func, ast.Name) and n.func.id in ("ghost", "old", "implies", "len", "abs"):
+            continue      # spec special forms and side-effect free builtins
         if isinstance(n, (ast.Call, ast.Yield, ast.YieldFrom, ast.Await, ast.NamedExpr)):
             return False
     return True
